@@ -89,8 +89,9 @@ Proof. intros g x y E1 E2 H c Hc. rewrite E1 in Hc. rewrite E2. apply H. exact H
 Lemma do_fail_out : forall s r stk b s1 st sp, do_fail s r stk b = Some (s1, st, sp) ->
   s_nodes s1 = s_nodes s /\ exists y, s_rrs s1 = setl (s_rrs s) r y /\ r_comp y = r_comp (getr s r) /\ r_out y = r_out (getr s r).
 Proof.
-  intros s r stk b s1 st sp H. unfold do_fail in H. destruct (unwind r stk) as [[cs below]|]; [|discriminate].
-  destruct b; inversion H; subst; clear H; simpl; (split; [reflexivity|]); eexists; repeat split.
+  intros s r stk b s1 st sp H.
+  destruct (do_fail_spec _ _ _ _ _ _ _ H) as [cs [ks [below [term [y [U [N [Sl [R [Y1 [Y2 [Y3 [Y4 [Y5 [Y6 [Y7 [Y8 T]]]]]]]]]]]]]]]]].
+  split; [exact N|]. exists y. repeat split; assumption.
 Qed.
 
 Lemma step_top_out : forall s f rest arg s1 st sp,
